@@ -1,10 +1,16 @@
 (* Linearizability of recorded map histories: an (untrusted) Wing-Gong style
    search finds a witness order, the extracted, verified [lin_ok] validates it.
-   Input: blocks  H / C tid op key val ok got inv ret ... / Z   (keys and values as decimal 64-bit numbers) *)
+   Input: blocks  H / C tid op key val ok got inv ret ... / Z   (keys and values as decimal 64-bit numbers)
+   Scans (V lines of harness/olc_sched) are turned into chains of successor queries (C09): the first asks for the
+   least key >= the bound, each later one for the least key > the key just delivered, the last one (unless the
+   visitor halted the scan) finds nothing; every query must take effect between the previous delivery and its own.
+   Two verdicts per history: point operations only, and (line starting SCAN) point operations + scan queries. *)
 open Model
 open Zutil
 
-type c = { op : char; key : int; vl : int; ok : bool; got : int; inv : int; ret : int }
+type c = { op : char; key : int; vl : int; ok : bool; got : int; inv : int; ret : int;
+           strict : bool; far : int option; res : (int * int) option }   (* op 'N' / 'P': key = near bound *)
+let point op key vl ok got inv ret = { op; key; vl; ok; got; inv = 2 * inv; ret = 2 * ret; strict = false; far = None; res = None }
 
 let zbytes (v : int) : z list = [z_of_int (v land 0xffffff); z_of_int ((v lsr 24) land 0xffffff); z_of_int (v lsr 48)]
 
@@ -13,6 +19,10 @@ let to_call (x : c) : call =
   let (o, r) = match x.op with
     | 'G' -> (LGet k, LVal (if x.ok then Some (zbytes x.got) else None))
     | 'I' -> (LInsert (k, zbytes x.vl), LBool x.ok)
+    | 'N' | 'P' ->
+      let far = (match x.far with Some f -> Some [z_of_int f] | None -> None) in
+      let r = LEntry (match x.res with Some (rk, rv) -> Some ([z_of_int rk], zbytes rv) | None -> None) in
+      ((if x.op = 'N' then LNext (k, x.strict, far) else LPrev (k, x.strict, far)), r)
     | _ -> (LRemove k, LBool x.ok) in
   { c_op = o; c_res = r; c_inv = nat_of_int x.inv; c_ret = nat_of_int x.ret }
 
@@ -40,6 +50,16 @@ let search (init : (int * int) list) (h : c array) : int list option =
               | 'G' -> if (x.ok && cur = Some x.got) || (not x.ok && cur = None) then Some state else None
               | 'I' -> if x.ok && cur = None then Some ((x.key, x.vl) :: state)
                        else if (not x.ok) && cur <> None then Some state else None
+              | 'N' ->
+                let cands = List.filter (fun (k, _) -> (if x.strict then k > x.key else k >= x.key) &&
+                                                       (match x.far with Some f -> k < f | None -> true)) state in
+                let best = List.fold_left (fun a (k, v) -> match a with Some (k', _) when k' < k -> a | _ -> Some (k, v)) None cands in
+                if best = x.res then Some state else None
+              | 'P' ->
+                let cands = List.filter (fun (k, _) -> (if x.strict then k < x.key else k <= x.key) &&
+                                                       (match x.far with Some f -> k > f | None -> true)) state in
+                let best = List.fold_left (fun a (k, v) -> match a with Some (k', _) when k' > k -> a | _ -> Some (k, v)) None cands in
+                if best = x.res then Some state else None
               | _ -> if x.ok && cur <> None then Some (List.remove_assoc x.key state)
                      else if (not x.ok) && cur = None then Some state else None in
             (match step with
@@ -55,28 +75,50 @@ let search (init : (int * int) list) (h : c array) : int list option =
 
 let () =
   let cur = ref [] in
+  let scans = ref [] in
   let init = ref [] in
   let total = ref 0 and bad = ref 0 in
   (try while true do
     let line = input_line stdin in
     match split_on ' ' line with
-    | ["H"] -> cur := []; init := []
-    | "X" :: _ -> cur := []; init := []
+    | ["H"] -> cur := []; init := []; scans := []
+    | "X" :: _ -> cur := []; init := []; scans := []
+    | "V" :: _ :: inv :: ret :: kind :: a :: b :: dir :: halted :: ":" :: seen ->
+      (* a scan as a chain of successor queries *)
+      let inv = int_of_string inv and ret = int_of_string ret and a = int_of_string a and b = int_of_string b in
+      let fwd, near, far, impossible = (match kind with
+        | "S" -> (dir = "f", (if dir = "f" then 0 else max_int), None, false)
+        | "F" -> (dir = "f", a, None, false)
+        | _ -> if a < b then (true, a, Some b, false) else if a > b then (false, a, Some b, false) else (true, a, Some a, true)) in
+      let ds = List.map (fun s -> match String.split_on_char '@' s with
+        | [kv; t] -> (match String.split_on_char '=' kv with [k; v] -> (int_of_string k, int_of_string v, int_of_string t) | _ -> failwith "V")
+        | _ -> failwith "V") seen in
+      let opc = if fwd then 'N' else 'P' in
+      let rec chain prev_t near strict = function
+        | [] -> if halted = "h" then [] else
+            [{ op = opc; key = near; vl = 0; ok = true; got = 0; inv = prev_t; ret = 2 * ret; strict; far; res = None }]
+        | (k, v, t) :: rest ->
+          { op = opc; key = near; vl = 0; ok = true; got = 0; inv = prev_t; ret = 2 * t; strict; far; res = Some (k, v) }
+          :: chain (2 * t + 1) k true rest in
+      ignore impossible;
+      scans := !scans @ chain (2 * inv) near false ds
     | ["J"; k; v] -> init := (int_of_string k, int_of_string v) :: !init
     | ["C"; _; op; key; vl; ok; got; inv; ret] ->
-      cur := { op = op.[0]; key = int_of_string key; vl = int_of_string vl; ok = ok = "1"; got = int_of_string got;
-               inv = int_of_string inv; ret = int_of_string ret } :: !cur
+      cur := point op.[0] (int_of_string key) (int_of_string vl) (ok = "1") (int_of_string got)
+               (int_of_string inv) (int_of_string ret) :: !cur
     | ["Z"] | ["Y"] ->
       incr total;
-      let h = Array.of_list (List.rev !cur) in
-      if Array.length h > 60 then print_endline "TOOLONG"
-      else (match search !init h with
-        | None -> incr bad; print_endline "NONLIN no witness order exists"
-        | Some order ->
-          let hc = Array.to_list (Array.map to_call h) in
-          let init_m = List.map (fun (k, v) -> ([z_of_int k], zbytes v)) !init in
-          if lin_ok init_m hc (List.map nat_of_int order) then print_endline "ok"
-          else begin incr bad; print_endline "NONLIN witness rejected by the verified validator" end)
+      let judge prefix h =
+        if Array.length h > 60 then print_endline (prefix ^ "TOOLONG")
+        else (match search !init h with
+          | None -> incr bad; print_endline (prefix ^ "NONLIN no witness order exists")
+          | Some order ->
+            let hc = Array.to_list (Array.map to_call h) in
+            let init_m = List.map (fun (k, v) -> ([z_of_int k], zbytes v)) !init in
+            if lin_ok init_m hc (List.map nat_of_int order) then print_endline (prefix ^ "ok")
+            else begin incr bad; print_endline (prefix ^ "NONLIN witness rejected by the verified validator") end) in
+      judge "" (Array.of_list (List.rev !cur));
+      if !scans <> [] then judge "SCAN " (Array.of_list (List.rev !cur @ !scans))
     | _ -> ()
   done with End_of_file -> ());
   Printf.printf "T histories=%d nonlinearizable=%d\n" !total !bad
